@@ -101,6 +101,13 @@ def invariants(msg, ref):
     want = [id(o) for o in ref.lst]
     if got != want:
         out.append(("I3-list-differs-from-reference", "list is %s, reference container %s" % ([label(o) for o in msg.avps], [label(o) for o in ref.lst])))
+    sib = msg.__dict__.get("_bvm_sibling")
+    if sib is not None:
+        # the message this one was converted from lives on beside it, untouched: its own length field and list stay its own
+        if sib.header.get_length() != len(sib.dump()):
+            out.append(("I4-message-length-of-the-message-it-was-converted-from", "the other message's Message Length %d, its serialised size %d" % (sib.header.get_length(), len(sib.dump()))))
+        if [id(o) for o in sib._avps] != msg.__dict__.get("_bvm_sibling_ids"):
+            out.append(("I3-list-of-the-message-it-was-converted-from-changed", "the other message's AVP list changed"))
     if msg.header.get_length() != len(msg.dump()):
         out.append(("I4-message-length", "Message Length %d, serialised size %d" % (msg.header.get_length(), len(msg.dump()))))
     return out
@@ -306,6 +313,16 @@ def start_message(kind):
     if kind == "typed":
         from bromelia.lib.ietf_rfc6733 import DWR
         return DWR(origin_host="a.b", origin_realm="b")
+    if kind in ("converted", "converted-from"):
+        # two messages: a typed one and the generic message DiameterMessage.convert() makes of it; the operations go to one of
+        # them (the copy / the original), the invariants look at both
+        from bromelia.lib.ietf_rfc6733 import DWR
+        orig = DWR(origin_host="a.b", origin_realm="b")
+        conv = DiameterMessage.convert(orig)
+        msg, other = (conv, orig) if kind == "converted" else (orig, conv)
+        msg.__dict__["_bvm_sibling"] = other
+        msg.__dict__["_bvm_sibling_ids"] = [id(o) for o in other._avps]
+        return msg
     raise AssertionError(kind)
 
 
@@ -404,7 +421,7 @@ def dfs(acc, start, maxdepth, budget, first=None):
 
 def random_walks(acc, rng, n, maxlen):
     for _ in range(n):
-        start = rng.choice(["generic", "decoded", "typed", "decoded-empty", "request-class"])
+        start = rng.choice(["generic", "decoded", "typed", "decoded-empty", "request-class", "converted", "converted-from"])
         msg = start_message(start)
         ref = Ref(msg)
         trace = []
@@ -433,7 +450,7 @@ def run_batch(b):
 def main(tier, seed):
     t0 = time.time()
     q = tier == "quick"
-    starts = ("generic", "decoded", "typed", "decoded-empty", "request-class")
+    starts = ("generic", "decoded", "typed", "decoded-empty", "request-class", "converted", "converted-from")
     if q:
         batches = [{"kind": "dfs", "start": s, "maxdepth": 12, "budget": 12000} for s in starts]
     else:
